@@ -544,20 +544,23 @@ type ContractDB struct {
 	Ghosts map[string]*CType
 	Macros map[string]*Macro
 	NonNilMaps map[string]string
+	// StableFields: "pkg.Type.field" -> comma-separated function keys that are the only writers of the field
+	// (checked structurally on every run); such a field keeps its value across interference and unknown calls.
+	StableFields map[string]string
 	ObjInvs map[string][]Clause
 	Files  []string
 	SpecOrder []string
 }
 
 func NewContractDB() *ContractDB {
-	return &ContractDB{Funcs: map[string]*FuncContract{}, Specs: map[string]*SpecFunc{}, Sorts: map[string]bool{}, Consts: map[string]*CExpr{}, Ghosts: map[string]*CType{}, Macros: map[string]*Macro{}, NonNilMaps: map[string]string{}, ObjInvs: map[string][]Clause{}}
+	return &ContractDB{Funcs: map[string]*FuncContract{}, Specs: map[string]*SpecFunc{}, Sorts: map[string]bool{}, Consts: map[string]*CExpr{}, Ghosts: map[string]*CType{}, Macros: map[string]*Macro{}, NonNilMaps: map[string]string{}, StableFields: map[string]string{}, ObjInvs: map[string][]Clause{}}
 }
 
 var clauseKeywords = map[string]bool{
 	"property": true, "spec": true, "axiom": true, "lemma": true, "func": true, "requires": true, "ensures": true,
 	"modifies": true, "pure": true, "inline": true, "assume": true, "loop": true, "invariant": true, "decreases": true,
 	"unroll": true, "logical": true, "sort": true, "noreturn": true, "nilable": true, "trusted": true, "alloc_bound": true,
-	"const": true, "opaque": true, "nilchecks": true, "let": true, "after": true, "ghost": true, "ghostfield": true, "macro": true, "mapinv": true, "replay": true, "replayhelp": true, "atomic": true, "defines": true, "objinv": true,
+	"const": true, "stablefield": true, "opaque": true, "nilchecks": true, "let": true, "after": true, "ghost": true, "ghostfield": true, "macro": true, "mapinv": true, "replay": true, "replayhelp": true, "atomic": true, "defines": true, "objinv": true,
 }
 
 type rawClause struct {
@@ -680,6 +683,13 @@ func (db *ContractDB) LoadFile(path string) error {
 				why = strings.TrimSpace(parts[1])
 			}
 			db.NonNilMaps[strings.TrimSpace(parts[0])] = why
+		case "stablefield":
+			// stablefield <pkg.Type.field> = <writer funcKey>,...
+			parts := strings.SplitN(rc.text, "=", 2)
+			if len(parts) != 2 {
+				return fmt.Errorf("%s:%d: stablefield <pkg.Type.field> = <writers>", path, rc.line)
+			}
+			db.StableFields[strings.TrimSpace(parts[0])] = strings.TrimSpace(parts[1])
 		case "sort":
 			db.Sorts[strings.TrimSpace(rc.text)] = true
 		case "ghost", "ghostfield":
